@@ -1258,3 +1258,58 @@ Proof.
     symmetry. destruct (N.eq_dec a 0) as [->|Hn]; [apply N.bits_0|]. apply N.bits_above_log2.
     assert (N.log2 a < 32) by (apply N.log2_lt_pow2; lia). lia.
 Qed.
+
+(* ====================================================================================== *)
+(* union: what does hold when the members' canonical forms are separated                    *)
+(* ====================================================================================== *)
+(* no earlier member accepts the canonical string of a value that the union stores with a later member *)
+Definition union_separated (ms : list mty) : Prop :=
+  forall s j vj i mi, union_store ms s = Ok (j, vj) -> (i < j)%nat -> nth_error ms i = Some mi ->
+    is_ok (m_store mi (m_canon vj)) = false.
+
+(* then canonicalisation is idempotent on the VALUE: the canonical string is stored by the same member as the same value *)
+Theorem union_canon_store_separated ms s v :
+  union_separated ms -> union_store ms s = Ok v -> union_store ms (union_canon v) = Ok v.
+Proof.
+  intros Hsep H. destruct v as [i v]. pose proof H as H0. apply union_store_first in H0. destruct H0 as [m [Hn [Hs _]]].
+  apply union_store_first. exists m. split; [exact Hn|]. split.
+  - unfold union_canon. cbn [snd]. exact (m_canon_store m s v Hs).
+  - intros j m' Hlt Hn'. unfold union_canon. cbn [snd]. exact (Hsep s i v j m' H Hlt Hn').
+Qed.
+
+Lemma m_compare_refl v : m_compare v v = true.
+Proof.
+  destruct v as [z|it|c]; cbn [m_compare].
+  - apply int_eq_iff_canon. reflexivity.
+  - apply enum_eq_iff_canon. reflexivity.
+  - apply str_eq_iff_canon. reflexivity.
+Qed.
+
+(* ... and two stored values are equal exactly when their canonical strings are equal *)
+Theorem union_eq_iff_canon_separated ms s1 s2 a b :
+  union_separated ms -> union_store ms s1 = Ok a -> union_store ms s2 = Ok b ->
+  (union_compare a b = true <-> union_canon a = union_canon b).
+Proof.
+  intros Hsep Ha Hb. split; [apply union_eq_implies_canon|]. intro E.
+  pose proof (union_canon_store_separated ms s1 a Hsep Ha) as Ea.
+  pose proof (union_canon_store_separated ms s2 b Hsep Hb) as Eb.
+  rewrite E, Eb in Ea. inversion Ea; subst. unfold union_compare. rewrite Nat.eqb_refl. cbn [andb]. apply m_compare_refl.
+Qed.
+
+(* a sufficient condition: only the first member is an integer type (enumeration and string members keep the text as the
+   canonical string, so what they store was refused by every earlier member) *)
+Definition not_int (m : mty) : Prop := match m with MInt _ _ => False | _ => True end.
+
+Theorem union_separated_ints_first ms : Forall not_int (tl ms) -> union_separated ms.
+Proof.
+  intros Hni s j vj i mi Hst Hlt Hn.
+  apply union_store_first in Hst. destruct Hst as [mj [Hnj [Hsj Hfirst]]].
+  assert (Hmj : not_int mj).
+  { destruct j as [|j]; [lia|]. destruct ms as [|m0 ms']; [discriminate|]. cbn [tl] in Hni. cbn [nth_error] in Hnj.
+    rewrite Forall_forall in Hni. apply Hni. eapply nth_error_In. exact Hnj. }
+  assert (Hc : m_canon vj = s).
+  { apply (m_canon_ident mj s vj Hsj). intros z Hz. subst vj. destruct mj as [t parts|e|parts]; [exact Hmj| |]; cbn [m_store] in Hsj.
+    - destruct (enum_store e s); discriminate.
+    - destruct (str_store parts s); discriminate. }
+  rewrite Hc. exact (Hfirst i mi Hlt Hn).
+Qed.
